@@ -186,10 +186,15 @@ func (d Doc) Denote() Den {
 		o.Head = append(o.Head, fmt.Sprintf("region id=%q width=%q lines=%d regionanchor=%q viewportanchor=%q scroll=%q", r.ID, r.Width, r.Lines, r.RegionAnchor, r.ViewportAnchor, r.Scroll))
 	}
 	for _, c := range d.Cues {
+		// outer white space of a comment line is not carried by the format ("NOTE" + one or more blanks + text)
+		cms := make([]string, len(c.Comments))
+		for i, cm := range c.Comments {
+			cms[i] = strings.TrimSpace(cm)
+		}
 		cd := CueDen{Head: fmt.Sprintf("cue %d-%d id=%d comments=%q region=%q align=%q line=%q position=%q size=%q vertical=%q",
-			c.Start, c.End, c.ID, c.Comments, c.Region, c.Settings.Align, c.Settings.Line, c.Settings.Position, c.Settings.Size, c.Settings.Vertical)}
+			c.Start, c.End, c.ID, cms, c.Region, c.Settings.Align, c.Settings.Line, c.Settings.Position, c.Settings.Size, c.Settings.Vertical)}
 		if len(c.Comments) == 0 {
-			cd.Head = strings.Replace(cd.Head, fmt.Sprintf("comments=%q", c.Comments), "comments=[]", 1)
+			cd.Head = strings.Replace(cd.Head, fmt.Sprintf("comments=%q", cms), "comments=[]", 1)
 		}
 		for _, l := range c.Lines {
 			cd.Lines = append(cd.Lines, DenoteLine(l))
@@ -219,13 +224,25 @@ type Render struct {
 	RegionBlocks bool   // every Region: line its own block (else consecutive lines)
 	MapRev       bool   // X-TIMESTAMP-MAP=MPEGTS:..,LOCAL:.. (else LOCAL first)
 	IDPad        int    // leading zeros in front of a numeric cue identifier (still the same decimal number)
+	ShortOnly    int    // with ShortTime off: mm:ss.ttt for 1 the cue start only, 2 the cue end only, 3 inline timestamps only
+	HourPad      int    // extra leading zeros in front of an hours field (hours are "two or more digits")
+	ArrowSep     string // white space on both sides of "-->" (" ", "\t", "  "); "" = " "
+	NoteSep      string // between NOTE and the comment text (" ", "\t", "  "); "\n": NOTE alone on its line, text on the following lines; "" = " "
+	EmptyNote    bool   // an extra comment block consisting of the bare word NOTE in front of each cue (denotes no comment line)
+	VoiceForm    int    // 0 <v Name>, 1 <v\tName>, 2 <v  Name>, 3 <v Name >
+	Entity       int    // 0 &amp; &lt; only; 1 also &gt; &nbsp; &lrm; &rlm;; 2 decimal / hexadecimal character references for & < >
+	HeaderLines  bool   // legacy metadata header lines (Kind:, Language:) directly after the signature line
+	IDText       string // non-numeric identifier line given to cues without a numeric identifier ("" = no identifier line)
+	RegionRev    bool   // region settings in reverse order (id last)
 }
 
 func DefaultRender() Render {
-	return Render{EOL: "\n", Blank: 1, SettingsSep: " "}
+	return Render{EOL: "\n", Blank: 1, SettingsSep: " ", ArrowSep: " ", NoteSep: " "}
 }
 
-func FmtTime(ms int64, short bool) string {
+func FmtTime(ms int64, short bool) string { return fmtTime(ms, short, 0) }
+
+func fmtTime(ms int64, short bool, hourPad int) string {
 	h := ms / 3600000
 	m := ms / 60000 % 60
 	s := ms / 1000 % 60
@@ -233,22 +250,59 @@ func FmtTime(ms int64, short bool) string {
 	if short && h == 0 {
 		return fmt.Sprintf("%02d:%02d.%03d", m, s, f)
 	}
-	return fmt.Sprintf("%02d:%02d:%02d.%03d", h, m, s, f)
+	return fmt.Sprintf("%s%02d:%02d:%02d.%03d", strings.Repeat("0", hourPad), h, m, s, f)
 }
 
-func Escape(t string) string {
+// which timestamps of a rendering are written without hours (when the hours are zero)
+const (
+	tStart = iota + 1
+	tEnd
+	tInline
+	tLocal
+)
+
+func (r Render) time(ms int64, kind int) string {
+	return fmtTime(ms, r.ShortTime || (r.ShortOnly == kind && kind != tLocal), r.HourPad)
+}
+
+func Escape(t string) string { return EscapeAs(t, 0) }
+
+// EscapeAs writes cue text (or an annotation) with one of the equivalent escapings.
+func EscapeAs(t string, style int) string {
 	var b strings.Builder
 	for _, ch := range t {
-		switch ch {
-		case '&':
+		switch {
+		case ch == '&' && style == 2:
+			b.WriteString("&#38;")
+		case ch == '<' && style == 2:
+			b.WriteString("&#60;")
+		case ch == '>' && style == 2:
+			b.WriteString("&#x3E;")
+		case ch == '&':
 			b.WriteString("&amp;")
-		case '<':
+		case ch == '<':
 			b.WriteString("&lt;")
+		case ch == '>' && style == 1:
+			b.WriteString("&gt;")
+		case ch == '\u00a0' && style == 1:
+			b.WriteString("&nbsp;")
+		case ch == '\u200e' && style == 1:
+			b.WriteString("&lrm;")
+		case ch == '\u200f' && style == 1:
+			b.WriteString("&rlm;")
 		default:
 			b.WriteRune(ch)
 		}
 	}
 	return b.String()
+}
+
+// EscapeAnnotation: '&' and '>' cannot stand for themselves in an annotation.
+func EscapeAnnotation(t string, style int) string {
+	if style == 2 {
+		return strings.NewReplacer("&", "&#38;", ">", "&#x3E;").Replace(t)
+	}
+	return strings.NewReplacer("&", "&amp;", ">", "&gt;").Replace(t)
 }
 
 func commonPrefix(a, b []Tag) int {
@@ -291,8 +345,11 @@ func (d Doc) Bytes(r Render) []byte {
 		}
 	}
 	lines = append(lines, "WEBVTT"+r.HeaderText)
+	if r.HeaderLines {
+		lines = append(lines, "Kind: captions", "Language: en")
+	}
 	if d.TSMap != nil {
-		l := "LOCAL:" + FmtTime(d.TSMap.Local, r.ShortTime)
+		l := "LOCAL:" + r.time(d.TSMap.Local, tLocal)
 		m := "MPEGTS:" + strconv.FormatInt(d.TSMap.MpegTS, 10)
 		if r.MapRev {
 			lines = append(lines, "X-TIMESTAMP-MAP="+m+","+l)
@@ -309,36 +366,59 @@ func (d Doc) Bytes(r Render) []byte {
 		if i == 0 || r.RegionBlocks {
 			blank()
 		}
-		s := "Region: id=" + rg.ID
+		rs := []string{"id=" + rg.ID}
 		if rg.Width != "" {
-			s += " width=" + rg.Width
+			rs = append(rs, "width="+rg.Width)
 		}
 		if rg.Lines != 0 {
-			s += " lines=" + strconv.Itoa(rg.Lines)
+			rs = append(rs, "lines="+strconv.Itoa(rg.Lines))
 		}
 		if rg.RegionAnchor != "" {
-			s += " regionanchor=" + rg.RegionAnchor
+			rs = append(rs, "regionanchor="+rg.RegionAnchor)
 		}
 		if rg.ViewportAnchor != "" {
-			s += " viewportanchor=" + rg.ViewportAnchor
+			rs = append(rs, "viewportanchor="+rg.ViewportAnchor)
 		}
 		if rg.Scroll != "" {
-			s += " scroll=" + rg.Scroll
+			rs = append(rs, "scroll="+rg.Scroll)
 		}
-		lines = append(lines, s)
+		if r.RegionRev {
+			for i, j := 0, len(rs)-1; i < j; i, j = i+1, j-1 {
+				rs[i], rs[j] = rs[j], rs[i]
+			}
+		}
+		lines = append(lines, "Region: "+strings.Join(rs, " "))
+	}
+	noteSep, arrowSep := r.NoteSep, r.ArrowSep
+	if noteSep == "" {
+		noteSep = " "
+	}
+	if arrowSep == "" {
+		arrowSep = " "
+	}
+	note := func(cm string) {
+		if noteSep == "\n" {
+			lines = append(lines, "NOTE", cm)
+		} else {
+			lines = append(lines, "NOTE"+noteSep+cm)
+		}
 	}
 	for _, c := range d.Cues {
+		if r.EmptyNote {
+			blank()
+			lines = append(lines, "NOTE")
+		}
 		if len(c.Comments) > 0 {
 			if r.NoteBlocks {
 				for _, cm := range c.Comments {
 					blank()
-					lines = append(lines, "NOTE "+cm)
+					note(cm)
 				}
 			} else {
 				blank()
 				for i, cm := range c.Comments {
 					if i == 0 {
-						lines = append(lines, "NOTE "+cm)
+						note(cm)
 					} else {
 						lines = append(lines, cm)
 					}
@@ -348,8 +428,10 @@ func (d Doc) Bytes(r Render) []byte {
 		blank()
 		if c.ID != 0 {
 			lines = append(lines, strings.Repeat("0", r.IDPad)+strconv.Itoa(c.ID))
+		} else if r.IDText != "" {
+			lines = append(lines, r.IDText)
 		}
-		t := FmtTime(c.Start, r.ShortTime) + " --> " + FmtTime(c.End, r.ShortTime)
+		t := r.time(c.Start, tStart) + arrowSep + "-->" + arrowSep + r.time(c.End, tEnd)
 		var set []string
 		add := func(k, v string) {
 			if v != "" {
@@ -375,11 +457,15 @@ func (d Doc) Bytes(r Render) []byte {
 		for li, l := range c.Lines {
 			var b strings.Builder
 			if l.Voice != "" {
+				v := "<v"
 				if r.VoiceClass {
-					b.WriteString("<v.loud " + l.Voice + ">")
-				} else {
-					b.WriteString("<v " + l.Voice + ">")
+					v += ".loud"
 				}
+				v += []string{" ", "\t", "  ", " "}[r.VoiceForm&3] + EscapeAnnotation(l.Voice, r.Entity)
+				if r.VoiceForm&3 == 3 {
+					v += " "
+				}
+				b.WriteString(v + ">")
 			}
 			for ri, run := range l.Runs {
 				cp := commonPrefix(open, run.Tags)
@@ -388,16 +474,16 @@ func (d Doc) Bytes(r Render) []byte {
 				}
 				open = open[:cp]
 				if run.TS != 0 && r.TSBeforeTags {
-					b.WriteString("<" + FmtTime(run.TS, r.ShortTime) + ">")
+					b.WriteString("<" + r.time(run.TS, tInline) + ">")
 				}
 				for i := cp; i < len(run.Tags); i++ {
 					b.WriteString("<" + run.Tags[i].String() + ">")
 				}
 				open = append([]Tag{}, run.Tags...)
 				if run.TS != 0 && !r.TSBeforeTags {
-					b.WriteString("<" + FmtTime(run.TS, r.ShortTime) + ">")
+					b.WriteString("<" + r.time(run.TS, tInline) + ">")
 				}
-				b.WriteString(Escape(run.Text))
+				b.WriteString(EscapeAs(run.Text, r.Entity))
 				lastOfLine := ri == len(l.Runs)-1
 				lastOfCue := li == len(c.Lines)-1 && lastOfLine
 				closeAll := !r.Lazy || (r.CloseVoice && lastOfLine) || (lastOfCue && !r.LeaveOpen)
